@@ -4707,7 +4707,14 @@ void dtw_dba_ptrs(seq_t **ptrs, idx_t nb_ptrs, idx_t* lengths,
     seq_t avg_step;
     idx_t path_length;
 
+    // The compact warping paths buffer is widest for the series whose length differs most from t
     idx_t wps_length = dtw_settings_wps_length(t, max_length, settings);
+    for (r_idx=0; r_idx<nb_ptrs; r_idx++) {
+        idx_t cur_length = dtw_settings_wps_length(t, lengths[r_idx], settings);
+        if (cur_length > wps_length) {
+            wps_length = cur_length;
+        }
+    }
     wps = (seq_t *)malloc(wps_length * sizeof(seq_t));
 
     for (pi=0; pi<t; pi++) {
